@@ -27,7 +27,9 @@ def replay(job):
         fv = fakevcs.FakeVCS(fdir, tool)
         if tool == "git":
             fv.set(tags=["1.0.0", "junk"], tags_branch=["1.0.0"], status=" M other.txt\n" if conf["dirty"] else "",
-                   branches="* main 1234abc [origin/main] msg\n" if conf["remote"] else "* main 1234abc msg\n", remote="", fail=FAKE_FAIL[conf["failat"]])
+                   branches=(["* main 1234abc [origin/main] msg\n", "  dev 111 [origin/dev] d\n* main 1234abc [upstream/main: ahead 1] msg\n"][seed % 2] if conf["remote"]
+                             else ["* main 1234abc msg\n", "  dev 111 [origin/dev] d\n* main 1234abc msg\n"][seed % 2]),      # another branch tracks a remote, the current one does not
+                   remote="", fail=FAKE_FAIL[conf["failat"]])
         else:
             fv.set(tags=["tip 3:abc", "1.0.0 2:def"], tags_branch=["1.0.0"], status="M other.txt\n" if conf["dirty"] else "",
                    remote="default = https://example.com/repo\n" if conf["remote"] else "", fail=FAKE_FAIL[conf["failat"]])
